@@ -1,4 +1,5 @@
 import Bt.Driver.Engine
+import Bt.Driver.Report
 import Bt.Driver.Weigh
 import Bt.Driver.Select
 import Bt.Driver.Stack
@@ -11,6 +12,7 @@ def dispatch (line : String) : String :=
   let l := line.trimAscii.toString
   match l.splitOn " " with
   | "step" :: _ => handleStep (l.drop 5).toString
+  | "wholerunx" :: _ => handleWholeRunX (l.drop 10).toString
   | "wholerun" :: _ => handleWholeRun (l.drop 9).toString
   | "paperseq" :: _ => handlePaperSeq (l.drop 9).toString
   | "session" :: _ => handleSession (l.drop 8).toString
@@ -18,6 +20,7 @@ def dispatch (line : String) : String :=
   | "stack" :: _ => handleStack (l.drop 6).toString
   | "select" :: _ => handleSelect (l.drop 7).toString
   | "weigh" :: _ => handleWeigh (l.drop 6).toString
+  | "report" :: _ => handleReport (l.drop 7).toString
   | _ => "bad unknown-request"
 
 partial def loop (h : IO.FS.Stream) (out : IO.FS.Stream) : IO Unit := do
